@@ -142,7 +142,29 @@ impl PlFold for Flattener {
                             ..pipeline
                         });
                     }
-                    kind => (self.fold_expr(*t.input)?, fold_transform_kind(self, kind)?),
+                    kind => {
+                        let input = self.fold_expr(*t.input)?;
+
+                        // Relational arguments (the `with` of join, the bottom of append, the body
+                        // of loop) are pipelines of their own: the sort of this pipeline must not
+                        // leak into them, nor theirs into this pipeline.
+                        let has_sub_pipeline = matches!(
+                            kind,
+                            TransformKind::Join { .. }
+                                | TransformKind::Append(_)
+                                | TransformKind::Loop(_)
+                        );
+                        if has_sub_pipeline {
+                            let sort = std::mem::take(&mut self.sort);
+                            let sort_undone = std::mem::replace(&mut self.sort_undone, false);
+                            let kind = fold_transform_kind(self, kind)?;
+                            self.sort = sort;
+                            self.sort_undone = sort_undone;
+                            (input, kind)
+                        } else {
+                            (input, fold_transform_kind(self, kind)?)
+                        }
+                    }
                 };
 
                 // In case we're appending or joining another pipeline, we do not want to apply the
